@@ -34,6 +34,11 @@ def growth_configs(quick):
                 for mode in "rw":
                     out.append(S.cfg(mode, [osz] * 1, 0, c, q, -1, "close", 0, 0, rep=count, static=1, bound=0,
                                      horizon=200000000, alloccap=1 << 30, tagN=n))
+                    if not quick and m == 1 and c <= 65536:
+                        # a stall / burst that starts anywhere: one priority change at every 64th scheduling point
+                        for sh in range(4):
+                            out.append(S.cfg(mode, [osz] * 1, 0, c, q, -1, "close", 0, 0, rep=count, static=1, bound=1, maxfree=64,
+                                             shard="%d/4" % sh, horizon=200000000, alloccap=1 << 30, tagN=n, tagS=sh))
                 # a consumer that gives up after 5 objects: closing must not decode the rest of the file into memory
                 for ending in ("close", "destroy"):
                     out.append(S.cfg("r", [osz] * 1, 0, c, q, 5, ending, 0, 0, rep=count, static=1, bound=0,
@@ -47,6 +52,8 @@ def growth_post(results):
         if r.get("violation") or r.get("skipped") or r.get("infra") or "peak_heap" not in r:
             continue
         p = r["params"]
+        if p.get("bound", "0") != "0":
+            continue      # the one-change runs are checked by the invariant only
         key = (p["mode"], p["cont"], p["objs"], p.get("early", "-1"), p.get("ending", "close"))
         groups.setdefault(key, []).append((int(p["tagN"]), r))
     viol = []
